@@ -135,6 +135,240 @@ theorem C07_missing_year (s : Str) (hm : specialTable.lookup (trimExpr s) = none
     tokensOf_of_lookup_none (lookup_with_space _ _), splitOn_append_sep, parseTokens_six _ _ h6]
   rfl
 
+/-! ## names and case (tier 2) -/
+
+set_option linter.unusedVariables false in
+/-- a glossary name, in any mix of upper and lower case, normalises to its index -/
+theorem normalize_name (names : List Str) (i : Nat) (nm : Str) (h : names[i]? = some nm) (hpos : 0 < i)
+    (hnodup : names.Nodup) (hup : nm.map upperChar = nm) (hnotnum : atoi nm = none) (v : Str)
+    (hv : v.map upperChar = nm) (hvn : atoi v = none) : normalize names v = some (i : Int) := by
+  unfold normalize translateLiteral
+  rw [hvn, hv, indexOf?_of_nodup names i nm h hnodup]
+  rfl
+
+/-- the same without the `atoi` side conditions, for glossaries whose entries (from index 1) are
+    words of ASCII capitals: they follow from the shape of the name -/
+theorem normalize_glossary (names : List Str) (hok : glossaryOK names = true) (hnodup : names.Nodup)
+    (i : Nat) (nm : Str) (h : names[i]? = some nm) (hpos : 0 < i) (v : Str)
+    (hv : v.map upperChar = nm) : normalize names v = some (i : Int) := by
+  have hw : Wordy v := wordy_of_map_upper v nm hv (glossaryOK_get hok hpos h).1
+  unfold normalize translateLiteral
+  rw [atoi_wordy v hw, hv, indexOf?_of_nodup names i nm h hnodup]
+  rfl
+
+/-- "jan", "Jan", "JAN", … all mean 1; … ; "dec", "DEC", … all mean 12 -/
+theorem normalize_month (i : Nat) (nm : Str) (h : monthNames[i]? = some nm) (hpos : 0 < i) (v : Str)
+    (hv : v.map upperChar = nm) : normalize monthNames v = some (i : Int) :=
+  normalize_glossary monthNames (by decide) (by decide) i nm h hpos v hv
+
+/-- "sun", "Sun", "SUN", … all mean 1; … ; "sat", … all mean 7 -/
+theorem normalize_day (i : Nat) (nm : Str) (h : dayNames[i]? = some nm) (hpos : 0 < i) (v : Str)
+    (hv : v.map upperChar = nm) : normalize dayNames v = some (i : Int) :=
+  normalize_glossary dayNames (by decide) (by decide) i nm h hpos v hv
+
+/-- `strconv.Atoi` inverts decimal rendering -/
+theorem atoi_render (n : Nat) (h : n ≤ maxInt64) : atoi (Nat.toDigits 10 n) = some (n : Int) :=
+  atoi_renderNat n h
+
+/-- names are case-insensitive synonyms of numbers: as a field on its own, a glossary name in any
+    case parses exactly like its index written in decimal -/
+theorem C07_name_synonym (names : List Str) (hok : glossaryOK names = true) (hnodup : names.Nodup)
+    (i : Nat) (nm : Str) (h : names[i]? = some nm) (hpos : 0 < i) (hi : i ≤ maxInt64) (v : Str)
+    (hv : v.map upperChar = nm) (b : Bound) :
+    parseField v b names = parseField (renderNat i) b names := by
+  have hw : Wordy v := wordy_of_map_upper v nm hv (glossaryOK_get hok hpos h).1
+  rw [parseField_single v b names hw.not_wild hw.noSep,
+    parseField_single (renderNat i) b names (not_wild_of_all_digit _ (renderNat_all_digit i))
+      (noSep_renderNat i),
+    normalize_glossary names hok hnodup i nm h hpos v hv, normalize_renderNat names i hi]
+
+/-- … and likewise as either end of a range -/
+theorem C07_name_synonym_range (names : List Str) (hok : glossaryOK names = true) (hnodup : names.Nodup)
+    (i j : Nat) (ni nj : Str) (hi : names[i]? = some ni) (hj : names[j]? = some nj)
+    (hipos : 0 < i) (hjpos : 0 < j) (himax : i ≤ maxInt64) (hjmax : j ≤ maxInt64) (v w : Str)
+    (hv : v.map upperChar = ni) (hw : w.map upperChar = nj) (b : Bound) :
+    parseField (v ++ '-' :: w) b names = parseField (renderNat i ++ '-' :: renderNat j) b names := by
+  have wv : Wordy v := wordy_of_map_upper v ni hv (glossaryOK_get hok hipos hi).1
+  have ww : Wordy w := wordy_of_map_upper w nj hw (glossaryOK_get hok hjpos hj).1
+  rw [parseField_range v w b names wv.noSep ww.noSep,
+    parseField_range _ _ b names (noSep_renderNat i) (noSep_renderNat j),
+    normalize_glossary names hok hnodup i ni hi hipos v hv,
+    normalize_glossary names hok hnodup j nj hj hjpos w hw,
+    normalize_renderNat names i himax, normalize_renderNat names j hjmax]
+
+/-! ## round trips: the documented forms are accepted with their documented meaning (tier 2)
+
+`bd.upper ≤ maxInt64` is needed because `strconv.Atoi` fails beyond int64 (all real bounds are tiny). -/
+
+/-- a single in-range number -/
+theorem C07_roundtrip_single (a : Nat) (bd : Bound) (names : List Str) (hmax : bd.upper ≤ maxInt64)
+    (h1 : bd.lower ≤ a) (h2 : a ≤ bd.upper) :
+    parseField (renderNat a) bd names = some { values := [a] } := by
+  rw [parseField_single _ bd names (not_wild_of_all_digit _ (renderNat_all_digit a)) (noSep_renderNat a),
+    normalize_renderNat names a (by omega)]
+  have : inScope (a : Int) bd.lower bd.upper = true := by rw [inScope_iff]; omega
+  simp [singleOf, this]
+
+/-- a glossary name in any case -/
+theorem C07_roundtrip_name (names : List Str) (hok : glossaryOK names = true) (hnodup : names.Nodup)
+    (i : Nat) (nm : Str) (h : names[i]? = some nm) (hpos : 0 < i) (v : Str)
+    (hv : v.map upperChar = nm) (bd : Bound) (h1 : bd.lower ≤ i) (h2 : i ≤ bd.upper) :
+    parseField v bd names = some { values := [i] } := by
+  have hw : Wordy v := wordy_of_map_upper v nm hv (glossaryOK_get hok hpos h).1
+  rw [parseField_single v bd names hw.not_wild hw.noSep,
+    normalize_glossary names hok hnodup i nm h hpos v hv]
+  have : inScope (i : Int) bd.lower bd.upper = true := by rw [inScope_iff]; omega
+  simp [singleOf, this]
+
+/-- `a-z` means a, a+1, …, z -/
+theorem C07_roundtrip_range (a z : Nat) (bd : Bound) (names : List Str) (hmax : bd.upper ≤ maxInt64)
+    (h1 : bd.lower ≤ a) (h2 : a ≤ z) (h3 : z ≤ bd.upper) :
+    parseField (renderNat a ++ '-' :: renderNat z) bd names =
+      some { values := (List.range (z - a + 1)).map (· + a) } := by
+  rw [parseField_range _ _ bd names (noSep_renderNat a) (noSep_renderNat z),
+    normalize_renderNat names a (by omega), normalize_renderNat names z (by omega)]
+  have ia : inScope (a : Int) bd.lower bd.upper = true := by rw [inScope_iff]; omega
+  have iz : inScope (z : Int) bd.lower bd.upper = true := by rw [inScope_iff]; omega
+  have : ¬ z < a := by omega
+  simp [rangeOf, ia, iz, fillRange, this]
+
+theorem not_contains_renderNat (n : Nat) (c : Char) (hc : isDigit c = false) :
+    ¬ ((renderNat n).contains c = true) :=
+  not_contains_of_all_digit _ (renderNat_all_digit n) c hc
+
+/-- `a/s` means a, a+s, a+2s, … up to the field's upper bound -/
+theorem C07_roundtrip_step (a s : Nat) (bd : Bound) (names : List Str) (hmax : bd.upper ≤ maxInt64)
+    (h1 : bd.lower ≤ a) (h2 : a ≤ bd.upper) (hs1 : 1 ≤ s) (hs2 : s ≤ bd.upper) :
+    parseField (renderNat a ++ '/' :: renderNat s) bd names =
+      some { values := (List.range ((bd.upper - a) / s + 1)).map (fun j => a + j * s) } := by
+  rw [parseField_step _ _ bd names (not_contains_renderNat a _ (by decide))
+      (not_contains_renderNat s _ (by decide)) (not_contains_renderNat a _ (by decide))
+      (not_contains_renderNat s _ (by decide)),
+    stepFromTo_from bd names _ (not_wild_of_all_digit _ (renderNat_all_digit a)).1
+      (not_contains_renderNat a _ (by decide)),
+    normalize_renderNat names a (by omega), atoi_renderNat s (by omega)]
+  have ia : inScope (a : Int) bd.lower bd.upper = true := by rw [inScope_iff]; omega
+  have iu : inScope (bd.upper : Int) bd.lower bd.upper = true := by rw [inScope_iff]; omega
+  have is' : inScope (s : Int) 1 bd.upper = true := by rw [inScope_iff]; omega
+  have n1 : ¬ (bd.upper < a ∨ s = 0) := by omega
+  simp [stepOf, ia, iu, is', fillStep, n1]
+
+/-- `*/s` means lower, lower+s, … up to the field's upper bound -/
+theorem C07_roundtrip_star_step (s : Nat) (bd : Bound) (names : List Str) (hmax : bd.upper ≤ maxInt64)
+    (hb : bd.lower ≤ bd.upper) (hs1 : 1 ≤ s) (hs2 : s ≤ bd.upper) :
+    parseField ('*' :: '/' :: renderNat s) bd names =
+      some { values := (List.range ((bd.upper - bd.lower) / s + 1)).map (fun j => bd.lower + j * s) } := by
+  have e : ('*' :: '/' :: renderNat s) = ['*'] ++ '/' :: renderNat s := rfl
+  rw [e, parseField_step _ _ bd names (by decide) (not_contains_renderNat s _ (by decide)) (by decide)
+      (not_contains_renderNat s _ (by decide)),
+    stepFromTo_star, atoi_renderNat s (by omega)]
+  have il : inScope (bd.lower : Int) bd.lower bd.upper = true := by rw [inScope_iff]; omega
+  have iu : inScope (bd.upper : Int) bd.lower bd.upper = true := by rw [inScope_iff]; omega
+  have is' : inScope (s : Int) 1 bd.upper = true := by rw [inScope_iff]; omega
+  have n1 : ¬ (bd.upper < bd.lower ∨ s = 0) := by omega
+  simp [stepOf, il, iu, is', fillStep, n1]
+
+/-- `a-z/s` means a, a+s, a+2s, … up to z -/
+theorem C07_roundtrip_range_step (a z s : Nat) (bd : Bound) (names : List Str)
+    (hmax : bd.upper ≤ maxInt64) (h1 : bd.lower ≤ a) (h2 : a ≤ z) (h3 : z ≤ bd.upper)
+    (hs1 : 1 ≤ s) (hs2 : s ≤ bd.upper) :
+    parseField (renderNat a ++ '-' :: renderNat z ++ '/' :: renderNat s) bd names =
+      some { values := (List.range ((z - a) / s + 1)).map (fun j => a + j * s) } := by
+  have e : renderNat a ++ '-' :: renderNat z ++ '/' :: renderNat s =
+      (renderNat a ++ '-' :: renderNat z) ++ '/' :: renderNat s := by simp
+  have nc : ∀ c, isDigit c = false → c ≠ '-' → ¬ ((renderNat a ++ '-' :: renderNat z).contains c = true) := by
+    intro c hc hne
+    simp only [contains_append_sep, not_or]
+    exact ⟨not_contains_renderNat a c hc, hne, not_contains_renderNat z c hc⟩
+  rw [e, parseField_step _ _ bd names (nc _ (by decide) (by decide))
+      (not_contains_renderNat s _ (by decide)) (nc _ (by decide) (by decide))
+      (not_contains_renderNat s _ (by decide)),
+    stepFromTo_range bd names _ _ (not_contains_renderNat a _ (by decide))
+      (not_contains_renderNat z _ (by decide)),
+    normalize_renderNat names a (by omega), normalize_renderNat names z (by omega),
+    atoi_renderNat s (by omega)]
+  have ia : inScope (a : Int) bd.lower bd.upper = true := by rw [inScope_iff]; omega
+  have iz : inScope (z : Int) bd.lower bd.upper = true := by rw [inScope_iff]; omega
+  have is' : inScope (s : Int) 1 bd.upper = true := by rw [inScope_iff]; omega
+  have n1 : ¬ (z < a ∨ s = 0) := by omega
+  simp [stepOf, ia, iz, is', fillStep, n1]
+
+/-! ## syntactic rejections: unknown / out-of-range values in every position (tier 2) -/
+
+/-- a single value that is neither a number nor a known name, or is out of range, is rejected -/
+theorem C07_rejects_bad_single (v : Str) (b : Bound) (names : List Str) (hw : v ≠ ['*'] ∧ v ≠ ['?'])
+    (hs : noSep v = true)
+    (h : ∀ x, normalize names v = some x → x < b.lower ∨ x > b.upper) :
+    parseField v b names = none := by
+  rw [parseField_single v b names hw hs]
+  cases hn : normalize names v with
+  | none => rfl
+  | some x =>
+    have : inScope x b.lower b.upper = false := by
+      rcases h x hn with h | h <;> simp [inScope] <;> omega
+    simp [singleOf, this]
+
+/-- a range with an unknown or out-of-range end, or with its ends reversed, is rejected -/
+theorem C07_rejects_bad_range (a z : Str) (b : Bound) (names : List Str)
+    (ha : noSep a = true) (hz : noSep z = true)
+    (h : ∀ x y, normalize names a = some x → normalize names z = some y →
+      x < b.lower ∨ x > b.upper ∨ y < b.lower ∨ y > b.upper ∨ y < x) :
+    parseField (a ++ '-' :: z) b names = none := by
+  rw [parseField_range a z b names ha hz]
+  cases hx : normalize names a with
+  | none => simp [rangeOf]
+  | some x =>
+    cases hy : normalize names z with
+    | none => simp [rangeOf]
+    | some y =>
+      simp only [rangeOf, Option.map_eq_none_iff]
+      split
+      · rename_i hsc
+        simp only [Bool.and_eq_true, inScope_iff] at hsc
+        have := h x y hx hy
+        unfold fillRange
+        have : y.toNat < x.toNat := by omega
+        simp [this]
+      · rfl
+
+/-- a step with an unknown or out-of-range start (or range end) is rejected, whatever the increment -/
+theorem C07_rejects_bad_step_start (t0 t1 : Str) (b : Bound) (names : List Str)
+    (h0 : ¬ t0.contains '/') (h1 : ¬ t1.contains '/')
+    (h : ∀ frm to, stepFromTo b names t0 = some (frm, to) →
+      frm < b.lower ∨ frm > b.upper ∨ to < b.lower ∨ to > b.upper ∨ to < frm) :
+    parseStep (t0 ++ '/' :: t1) b names = none := by
+  rw [parseStep_eq t0 t1 b names h0 h1]
+  unfold stepOf
+  split
+  · rename_i frm to step hft _
+    split
+    · rename_i hsc
+      simp only [Bool.and_eq_true, inScope_iff] at hsc
+      have := h frm to hft
+      unfold fillStep
+      have : to.toNat < frm.toNat := by omega
+      simp [this]
+    · rfl
+  · rfl
+
+/-- a list is rejected as soon as one member — plain value, range or step — would be rejected -/
+theorem C07_rejects_bad_list_member (fld : Str) (b : Bound) (names : List Str) (t : Str)
+    (ht : t ∈ splitOn ',' fld) (hbad : parseMember t b names = none) :
+    parseList fld b names = none := by
+  cases hp : parseList fld b names with
+  | none => rfl
+  | some l =>
+    have := parseList_members hp t ht
+    rw [hbad] at this; cases this
+
+/-- … where a member that is not a wildcard is judged exactly like a field on its own -/
+theorem C07_list_member_as_field (fld : Str) (b : Bound) (names : List Str) (t : Str)
+    (ht : t ∈ splitOn ',' fld) (hw : t ≠ ['*'] ∧ t ≠ ['?']) :
+    parseField t b names = (parseMember t b names).map (fun v => { values := v }) := by
+  apply parseField_eq_member t b names hw
+  intro hc
+  exact splitOn_no_sep_mem ',' fld t ht ',' (by simpa using hc) rfl
+
 /-! ## non-vacuity: the hypotheses are satisfiable on concrete, non-trivial inputs -/
 
 section NonVacuity
@@ -224,6 +458,78 @@ example : parse {} "0 0 0 1 1 ? *".toList = parse {} "0 0 0 1 1 ?".toList := by 
 /-- `C07_macros`, spelled out -/
 example : parse {} "@yearly".toList = parse {} "0 0 0 1 1 *".toList := C07_macros (_, _) (by decide)
 example : (parse {} "@hourly".toList).isSome = true := by decide
+
+/-! tier 2 -/
+
+/-- `normalize_name` / `normalize_month` / `normalize_day`: any mix of cases -/
+example : normalize monthNames "mAr".toList = some 3 :=
+  normalize_name monthNames 3 "MAR".toList (by decide) (by decide) (by decide) (by decide) (by decide)
+    "mAr".toList (by decide) (by decide)
+example : normalize monthNames "jan".toList = some 1 := normalize_month 1 "JAN".toList (by decide) (by decide) _ (by decide)
+example : normalize monthNames "Jan".toList = some 1 := normalize_month 1 "JAN".toList (by decide) (by decide) _ (by decide)
+example : normalize monthNames "JAN".toList = some 1 := normalize_month 1 "JAN".toList (by decide) (by decide) _ (by decide)
+example : normalize monthNames "dEC".toList = some 12 := normalize_month 12 "DEC".toList (by decide) (by decide) _ (by decide)
+example : normalize dayNames "sat".toList = some 7 := normalize_day 7 "SAT".toList (by decide) (by decide) _ (by decide)
+example : normalize dayNames "Sun".toList = some 1 := normalize_day 1 "SUN".toList (by decide) (by decide) _ (by decide)
+/-- … whereas a name of the other glossary, or a misspelt one, is unknown -/
+example : normalize monthNames "mon".toList = none := by decide
+example : normalize dayNames "sunday".toList = none := by decide
+
+/-- `atoi_render` -/
+example : atoi "1970".toList = some 1970 := atoi_render 1970 (by decide)
+
+/-- `C07_name_synonym`, `C07_name_synonym_range` -/
+example : parseField "oct".toList ⟨1, 12⟩ monthNames = parseField "10".toList ⟨1, 12⟩ monthNames :=
+  C07_name_synonym monthNames (by decide) (by decide) 10 "OCT".toList (by decide) (by decide) (by decide) _ (by decide) _
+example : parseField "mon-Fri".toList ⟨1, 7⟩ dayNames = parseField "2-6".toList ⟨1, 7⟩ dayNames :=
+  C07_name_synonym_range dayNames (by decide) (by decide) 2 6 "MON".toList "FRI".toList (by decide) (by decide) (by decide)
+    (by decide) (by decide) (by decide) "mon".toList "Fri".toList (by decide) (by decide) _
+example : parse {} "0 0 0 ? jan,MAR-may,Oct/1 mon-Fri".toList = parse {} "0 0 0 ? 1,3-5,10/1 2-6".toList := by
+  decide
+
+/-- round trips -/
+example : parseField "17".toList ⟨0, 23⟩ [] = some { values := [17] } :=
+  C07_roundtrip_single 17 ⟨0, 23⟩ [] (by decide) (by decide) (by decide)
+example : parseField "wEd".toList ⟨1, 7⟩ dayNames = some { values := [4] } :=
+  C07_roundtrip_name dayNames (by decide) (by decide) 4 "WED".toList (by decide) (by decide) _ (by decide) _
+    (by decide) (by decide)
+example : parseField "10-12".toList ⟨0, 23⟩ [] = some { values := [10, 11, 12] } :=
+  C07_roundtrip_range 10 12 ⟨0, 23⟩ [] (by decide) (by decide) (by decide) (by decide)
+example : parseField "0/15".toList ⟨0, 59⟩ [] = some { values := [0, 15, 30, 45] } :=
+  C07_roundtrip_step 0 15 ⟨0, 59⟩ [] (by decide) (by decide) (by decide) (by decide) (by decide)
+example : parseField "*/4".toList ⟨1, 12⟩ monthNames = some { values := [1, 5, 9] } :=
+  C07_roundtrip_star_step 4 ⟨1, 12⟩ monthNames (by decide) (by decide) (by decide) (by decide)
+example : parseField "10-20/5".toList ⟨0, 59⟩ [] = some { values := [10, 15, 20] } :=
+  C07_roundtrip_range_step 10 20 5 ⟨0, 59⟩ [] (by decide) (by decide) (by decide) (by decide)
+    (by decide) (by decide)
+
+/-- syntactic rejections -/
+example : parseField "60".toList ⟨0, 59⟩ [] = none :=
+  C07_rejects_bad_single _ _ _ (by decide) (by decide) (fun x hx => by
+    have e : normalize [] "60".toList = some 60 := by decide
+    rw [e] at hx; injection hx with hx; subst hx; exact Or.inr (by decide))
+example : parseField "FOO".toList ⟨1, 12⟩ monthNames = none :=
+  C07_rejects_bad_single _ _ _ (by decide) (by decide) (fun x hx => by
+    have e : normalize monthNames "FOO".toList = none := by decide
+    rw [e] at hx; cases hx)
+example : parseField "5-2".toList ⟨0, 59⟩ [] = none :=
+  C07_rejects_bad_range "5".toList "2".toList _ _ (by decide) (by decide) (fun x y hx hy => by
+    have e1 : normalize [] "5".toList = some 5 := by decide
+    have e2 : normalize [] "2".toList = some 2 := by decide
+    rw [e1] at hx; rw [e2] at hy
+    injection hx with hx; injection hy with hy; subst hx; subst hy
+    exact Or.inr (Or.inr (Or.inr (Or.inr (by decide)))))
+example : parseStep "61/5".toList ⟨0, 59⟩ [] = none :=
+  C07_rejects_bad_step_start "61".toList "5".toList _ _ (by decide) (by decide) (fun frm to h => by
+    have e : stepFromTo ⟨0, 59⟩ [] "61".toList = some (61, 59) := by decide
+    rw [e] at h; injection h with h; injection h with h1 h2; subst h1; subst h2
+    exact Or.inr (Or.inl (by decide)))
+example : parseList "1,60,3".toList ⟨0, 59⟩ [] = none :=
+  C07_rejects_bad_list_member _ _ _ "60".toList (by decide) (by decide)
+example : parseList "1,2-x,3".toList ⟨0, 59⟩ [] = none :=
+  C07_rejects_bad_list_member _ _ _ "2-x".toList (by decide) (by decide)
+example : parseList "1,*,3".toList ⟨0, 59⟩ [] = none :=
+  C07_rejects_bad_list_member _ _ _ "*".toList (by decide) (by decide)
 
 end NonVacuity
 
